@@ -9,6 +9,7 @@
 #include "../core/hwsim.h"
 #include "sched_rt.h"
 #include <hwloc.h>
+#include <hwloc/diff.h>
 #include <errno.h>
 #include <limits.h>
 #include <dirent.h>
@@ -551,7 +552,12 @@ int load_topology(const Env &env, TopoState &ts, const std::string &kind, const 
   if (kind == "synth") rc = hwloc_topology_set_synthetic(t, val.c_str());
   else if (kind == "xml") rc = hwloc_topology_set_xml(t, (env.data + "/xml/" + val).c_str());
   else if (kind == "xmlbuf") { auto it = env.xmlbuf.find(val); if (it == env.xmlbuf.end()) rc = -1; else rc = hwloc_topology_set_xmlbuffer(t, it->second.data(), (int)it->second.size() + 1); }
-  else if (kind == "fsroot") rc = 0;   // HWLOC_FSROOT / HWLOC_COMPONENTS were set by the main task before the phase
+  else if (kind == "fsroot") {   // HWLOC_FSROOT / HWLOC_COMPONENTS were set by the main task before the phase
+    rc = 0;
+    // a quarter of the snapshot loads blacklist one discovery phase of the linux component for THIS topology only (the cpu phase is never
+    // blacklisted: without it hwloc would fall back to the processor count of the host). The other tasks' loads must not notice.
+    if (((cfgbits >> 2) & 3) == 3) { static const char *BL[] = {"linux:memory", "linux:pci", "linux:io", "linux:misc", "linux:annotate"}; d.err(hwloc_topology_set_components(t, HWLOC_TOPOLOGY_COMPONENTS_FLAG_BLACKLIST, BL[(cfgbits / 7) % 5])); }
+  }
   else rc = -1;
   d.err(rc);
   if (!rc) { rc = hwloc_topology_load(t); d.err(rc); }
@@ -574,7 +580,7 @@ uint64_t topo_digest(hwloc_topology_t t) {
 
 // ------------------------------------------------------------------------------------ tasks
 struct POp { int kind; uint64_t a, b, c; const Op *op; };   // pre-decoded: tasks do not parse plan text
-enum { B_NEW = 100, B_MOD, B_EXPORT, B_CONSULT, B_DUP, B_DESTROY, B_LOCKPAIR };
+enum { B_NEW = 100, B_MOD, B_EXPORT, B_CONSULT, B_DUP, B_DESTROY, B_LOCKPAIR, B_DIFF };
 
 // never generated: only hand-written plans use it, to demonstrate that the scheduler reports a deadlock instead of hanging
 pthread_mutex_t g_demo_mutex[2] = {PTHREAD_MUTEX_INITIALIZER, PTHREAD_MUTEX_INITIALIZER};
@@ -625,6 +631,30 @@ uint64_t run_b_op(TaskCtx &c, const POp &p) {
       if (!ts.t) break;
       hwloc_topology_t t2 = nullptr; int rc = hwloc_topology_dup(&t2, ts.t); d.err(rc);
       if (!rc) { d.u(c17_rd_xmlbuf(t2, 0, 0, 0)); if (p.a & 1) { hwloc_topology_destroy(ts.t); ts.t = t2; } else hwloc_topology_destroy(t2); }
+      break;
+    }
+    case B_DIFF: {
+      // the diff API works on the task's own topologies but goes through the process-wide component registry and XML callbacks (a diff has no
+      // topology to hold a reference): build against an edited duplicate, export to a buffer - which must fail with -1 for a too-complex diff -,
+      // load back, apply and un-apply
+      if (!ts.t) break;
+      hwloc_topology_t t2 = nullptr; int rc = hwloc_topology_dup(&t2, ts.t); d.err(rc); if (rc) break;
+      switch (p.a % 4) {
+        case 0: break;                                                    // identical: 0 with a NULL diff
+        case 1: { hwloc_obj_t n = hwloc_get_obj_by_type(t2, HWLOC_OBJ_NUMANODE, 0); if (n) { n->attr->numanode.local_memory += 4096; for (hwloc_obj_t q = n; q; q = q->parent) q->total_memory += 4096; } break; }   // representable
+        default: hwloc_obj_add_info(hwloc_get_root_obj(t2), "C17Extra", "1"); break;   // an added info pair: too complex for a diff
+      }
+      hwloc_topology_diff_t df = nullptr; rc = hwloc_topology_diff_build(ts.t, t2, 0, &df); d.i(rc);
+      unsigned n = 0; for (hwloc_topology_diff_t x = df; x; x = x->generic.next) { n++; d.i((int)x->generic.type); } d.u(n);
+      char *xb = nullptr; int xl = 0; errno = 0; int er = hwloc_topology_diff_export_xmlbuffer(df, "c17ref", &xb, &xl); d.err(er);
+      if (!er && xb) {
+        d.u(sched::hash_bytes(xb, (size_t)xl));
+        hwloc_topology_diff_t d2 = nullptr; char *ref = nullptr; int lr = hwloc_topology_diff_load_xmlbuffer(xb, xl, &d2, &ref); d.err(lr);
+        if (!lr) { int ar = hwloc_topology_diff_apply(ts.t, d2, 0); d.i(ar); ar = hwloc_topology_diff_apply(ts.t, d2, HWLOC_TOPOLOGY_DIFF_APPLY_REVERSE); d.i(ar); if (d2) hwloc_topology_diff_destroy(d2); free(ref); }
+        hwloc_free_xmlbuffer(ts.t, xb);
+      }
+      if (df) hwloc_topology_diff_destroy(df);
+      hwloc_topology_destroy(t2);
       break;
     }
     case B_DESTROY: if (ts.t) { hwloc_topology_destroy(ts.t); ts.t = nullptr; d.u(1); } break;
@@ -754,7 +784,8 @@ struct SchedMachine : Machine {
             if (r < 4) { Op m = gen_mod(ops); Op o("b"); o.set("t", t).sets("k", "mod"); for (auto &kv : m.kv) o.kv.push_back({kv.first == "k" ? std::string("m") : kv.first, kv.second}); p.ops.push_back(o); }
             else if (r < 7) { Op o("b"); o.set("t", t).sets("k", "export").setu("a", ops.next() >> 8).setu("b", ops.next() >> 8); p.ops.push_back(o); }
             else if (r < 9) { Op o("b"); o.set("t", t).sets("k", "consult").setu("a", ops.next() >> 8).setu("b", ops.next() >> 8).setu("c", ops.next() >> 8); p.ops.push_back(o); }
-            else { Op o("b"); o.set("t", t).sets("k", "dup").setu("a", ops.below(2)); p.ops.push_back(o); }
+            else if (ops.below(2)) { Op o("b"); o.set("t", t).sets("k", "dup").setu("a", ops.below(2)); p.ops.push_back(o); }
+            else { Op o("b"); o.set("t", t).sets("k", "diff").setu("a", ops.below(4)); p.ops.push_back(o); }
           }
           if (ops.below(3)) { Op o("b"); o.set("t", t).sets("k", "destroy"); p.ops.push_back(o); }
         }
@@ -915,6 +946,7 @@ struct SchedMachine : Machine {
       else if (k == "export") po.kind = B_EXPORT;
       else if (k == "consult") po.kind = B_CONSULT;
       else if (k == "dup") po.kind = B_DUP;
+      else if (k == "diff") po.kind = B_DIFF;
       else if (k == "destroy") po.kind = B_DESTROY;
       else if (k == "lockpair") po.kind = B_LOCKPAIR;
       else continue;
